@@ -16,6 +16,8 @@ pub uninterp spec fn static_no_faults() -> bool;
 pub uninterp spec fn magiclink_body(body: Seq<u8>) -> bool;
 /// (base, sub-path) names a magic-link of the handle's procfs (fd/N, exe, cwd, root, ns/*), not an ordinary symlink
 pub uninterp spec fn names_magiclink(subpath: Seq<u8>) -> bool;
+/// what rustix accepts as a directory descriptor: AT_FDCWD or a non-negative number
+pub open spec fn valid_dirfd(id: int) -> bool { raw_of(id) == libc::AT_FDCWD as int || raw_of(id) >= 0 }
 /// the descriptor has FD_CLOEXEC (C05/C11: every descriptor the library creates must have it)
 pub uninterp spec fn cloexec(fd: int) -> bool;
 
@@ -46,8 +48,9 @@ pub trait AsFd {
 }
 impl AsFd for OwnedFd {
     open spec fn fd_id(&self) -> int { self.id() }
+    /// A7: an OwnedFd never holds a negative number
     #[verifier::external_body]
-    fn as_fd(&self) -> (r: BorrowedFd<'_>) { unimplemented!() }
+    fn as_fd(&self) -> (r: BorrowedFd<'_>) ensures raw_of(r.id@) >= 0 { unimplemented!() }
 }
 impl AsFd for BorrowedFd<'_> {
     open spec fn fd_id(&self) -> int { self.id@ }
